@@ -194,7 +194,7 @@ Proof.
   destruct ca as [e|].
   - destruct C as (Ho & Ha & Hp & Hi & Hs & Hd). subst ib.
     destruct m as [mo mp mq ma ms]. cbn [m_open m_ack m_pend m_pers m_sent] in *. subst mo ma mq.
-    destruct ev as [i h|i h|sn|sn ok| |lk| |past]; cbn [lstep lstep_wraps cache inb db] in *.
+    destruct ev as [i h|i h|sn|sn ok| | |lk| |past]; cbn [lstep lstep_wraps cache inb db] in *.
     + (* Active *)
       destruct (pending e) eqn:P; cbn [negb fix_active V fst snd mon_step m_open].
       * eexists; split; [reflexivity|]. unfold coupled, confirm; cbn. destruct d; fin.
@@ -227,6 +227,11 @@ Proof.
       assert (EF : fs = true \/ fs = false) by (clear; destruct fs; auto).
       destruct EF as [EF|EF]; rewrite EF in *; (eexists; split; [reflexivity|]);
         unfold coupled, floor; rewrite ?EF; cbn; try rewrite (Hs eq_refl); destruct d; fin.
+    + (* the outstanding request failed: checkpoint of the cached session (fix_sent) *)
+      cbn [fst snd mon_step m_open fix_sent V].
+      assert (EF : fs = true \/ fs = false) by (clear; destruct fs; auto).
+      destruct EF as [EF|EF]; rewrite EF in *; cbn [andb fst snd]; (eexists; split; [reflexivity|]);
+        unfold coupled; rewrite ?EF; cbn; destruct d; fin.
     + (* late response for the detached object of an earlier release: with fix_ghost no checkpoint is written *)
       cbn [orph]. destruct oo; cbn [fix_ghost V fst snd mon_step];
         (eexists; split; [reflexivity|]); unfold coupled; cbn; destruct d; fin.
@@ -245,7 +250,7 @@ Proof.
       * rewrite GF. eexists; split; [reflexivity|]. unfold coupled; cbn; auto.
       * eexists; split; [reflexivity|]. unfold coupled; cbn; auto.
   - destruct C as (Hd & Hi & Hm). subst d ib m.
-    destruct ev as [i h|i h|sn|sn ok| |lk| |past]; cbn [lstep lstep_wraps cache inb db orph fst snd mon_step m_open mst0 fix_stop fix_ghost V andb];
+    destruct ev as [i h|i h|sn|sn ok| | |lk| |past]; cbn [lstep lstep_wraps cache inb db orph fst snd mon_step m_open mst0 fix_stop fix_ghost V andb];
       try destruct oo; cbn [fst snd mon_step fix_ghost V];
       eexists; (split; [reflexivity|]); unfold coupled; cbn; repeat split; auto; discriminate.
 Qed.
@@ -303,7 +308,7 @@ Ltac mon_start t IH M NP Hi St :=
   cbn [map fst no_prune never_restored forallb] in NP;
   unfold outputs in *; cbn [flat_map snd];
   destruct m as [mo mp mq ma ms];
-  destruct ev as [i h|i h|sn|sn ok| |lk| |past]; cbn [mon_step m_open m_pers m_pend m_ack m_sent] in St;
+  destruct ev as [i h|i h|sn|sn ok| | |lk| |past]; cbn [mon_step m_open m_pers m_pend m_ack m_sent] in St;
   break_if St; inversion St; subst; clear St.
 
 Ltac no_prune_case :=
@@ -331,7 +336,7 @@ Proof.
   induction t as [|[ev o] r IH]; intros m m' x HM _ Hi; [reflexivity|].
   cbn [mon_run] in HM. destruct (mon_step _ _ m ev o) as [m1|] eqn:St; [|discriminate].
   cbn [stops_ok]. destruct m as [mo mp mq ma ms].
-  destruct ev as [i h|i h|sn|sn ok| |lk| |past]; cbn [mon_step m_open m_pers m_pend m_ack m_sent] in St;
+  destruct ev as [i h|i h|sn|sn ok| | |lk| |past]; cbn [mon_step m_open m_pers m_pend m_ack m_sent] in St;
   break_if St; inversion St; subst; clear St; norm_hyps; subst; cbn [filter length Nat.eqb Nat.leb andb];
   try (destruct x; [|specialize (Hi eq_refl); discriminate]); cbn [Nat.leb Nat.eqb andb];
   try (destruct x; cbn [Nat.leb Nat.eqb andb]);
@@ -402,7 +407,7 @@ Proof.
   apply andb_true_iff in NPa as [NP1 NPa]. apply andb_true_iff in NPb as [NR1 NPb].
   unfold outputs in *. cbn [flat_map snd]. destruct m as [mo mp mq ma ms].
   destruct Hi as [Hi1 Hi2]. cbn [m_open m_pers m_pend] in Hi1, Hi2. subst x.
-  destruct ev as [i h|i h|sn|sn ok| |lk| |past]; cbn [mon_step m_open m_pers m_pend m_ack m_sent] in St;
+  destruct ev as [i h|i h|sn|sn ok| | |lk| |past]; cbn [mon_step m_open m_pers m_pend m_ack m_sent] in St;
   try discriminate; break_if St; inversion St; subst; clear St; no_prune_case; norm_hyps;
   try (specialize (Hi2 eq_refl)); subst;
   cbn [app strict andb];
@@ -419,7 +424,7 @@ Ltac mon_start0 t IH M Hi St :=
   cbn [mon_run] in M; destruct (mon_step _ _ m ev o) as [m1|] eqn:St; [|discriminate];
   unfold outputs in *; cbn [flat_map snd];
   destruct m as [mo mp mq ma ms];
-  destruct ev as [i h|i h|sn|sn ok| |lk| |past]; cbn [mon_step m_open m_pers m_pend m_ack m_sent] in St;
+  destruct ev as [i h|i h|sn|sn ok| | |lk| |past]; cbn [mon_step m_open m_pers m_pend m_ack m_sent] in St;
   break_if St; inversion St; subst; clear St.
 
 Lemma mon_bracketed_p fs t : forall m m' inside,
@@ -471,7 +476,7 @@ Proof.
   { destruct NPo as [A|A]; [left; exact A|right]. cbn [map fst no_prune forallb] in A.
     apply andb_true_iff in A as [A _]. exact A. }
   cbn [strictT]. destruct m as [mo mp mq ma ms].
-  destruct ev as [i h|i h|sn|sn ok| |lk| |past]; cbn [mon_step m_open m_pers m_pend m_ack m_sent] in St;
+  destruct ev as [i h|i h|sn|sn ok| | |lk| |past]; cbn [mon_step m_open m_pers m_pend m_ack m_sent] in St;
   break_if St; inversion St; subst; clear St;
   destruct b; cbn [strict_inv m_open m_pers] in Hi;
   repeat match goal with x : bool |- _ => destruct x end;
@@ -576,13 +581,14 @@ Qed.
 Lemma lstep_interims_acked v g s ev :
   match ev with ETick _ false => False | _ => True end -> interims_acked (snd (lstep v g s ev)) = true.
 Proof.
-  destruct ev as [i h|i h|sn|sn ok| |lk| |past]; intros H; cbn [lstep].
+  destruct ev as [i h|i h|sn|sn ok| | |lk| |past]; intros H; cbn [lstep].
   - destruct (inb s); [reflexivity|]. destruct (cache s); [destruct (fix_active v)|]; reflexivity.
   - destruct (cache s); reflexivity.
   - destruct (cache s); [reflexivity|]. destruct (fix_stop v); reflexivity.
   - destruct ok; [|contradiction]. destruct (inb s); [|reflexivity]. destruct (cache s) as [e|]; [|reflexivity].
     destruct (report v g true e sn). reflexivity.
   - destruct (cache s); reflexivity.
+  - destruct (cache s); [destruct (fix_sent v)|]; reflexivity.
   - destruct (orph s); [destruct (fix_ghost v)|]; reflexivity.
   - reflexivity.
   - destruct (cache s) as [e|]; [|reflexivity]. destruct (pending e && past); [destruct (fix_prune v)|]; reflexivity.
@@ -600,7 +606,7 @@ Proof.
   destruct (lstep v g s ev) as [s1 o]. specialize (IH s1 H2).
   destruct (lrun v g s1 r) as [s2 t]. unfold outputs in *. cbn [snd flat_map] in *.
   rewrite interims_acked_app, IH, andb_true_r. apply L.
-  destruct ev as [| | |sn ok| | | |]; auto. destruct ok; [auto|discriminate].
+  destruct ev as [| | |sn ok| | | | |]; auto. destruct ok; [auto|discriminate].
 Qed.
 
 Lemma monotone_sent_if_acked fs fo fl fp g evs :
@@ -998,7 +1004,7 @@ Proof.
   assert (CF : forall e i h, sinv v (c4_add B (ev_sum ev)) e -> sinv v (c4_add B (ev_sum ev)) (confirm e i h))
     by (intros e i h H; exact H).
   destruct s as [ib ca d oo]. cbn [cache db] in *.
-  destruct ev as [i h|i h|sn|sn ok| |lk| |past]; cbn [lstep lstep_wraps cache db inb ev_sum] in *.
+  destruct ev as [i h|i h|sn|sn ok| | |lk| |past]; cbn [lstep lstep_wraps cache db inb ev_sum] in *.
   - split; [destruct ca; reflexivity|].
     destruct ib; [split; cbn; auto|].
     destruct ca as [e|]; subst v; cbn [fix_active V fst]; split; cbn [cache db]; intros x Hx; inversion Hx; subst; auto.
@@ -1025,6 +1031,9 @@ Proof.
     assert (S' : sinv v (c4_add B c4z) (Sess (ifx e) (hfx e) (floor v e) (hw e) (base e) (prior e) (pending e))).
     { unfold sinv, floor in *. cbn [base prior last hw]. destruct (fix_sent v); repeat split; auto; c4crush. }
     split; cbn [cache db]; intros x Hx; inversion Hx; subst; exact S'.
+  - split; [destruct ca; reflexivity|]. destruct ca as [e|]; [|cbn; split; auto].
+    specialize (Ic' e eq_refl). destruct (fix_sent v); cbn [fst]; split; cbn [cache db]; auto;
+      intros x Hx; inversion Hx; subst; exact Ic'.
   - split; [destruct ca; reflexivity|]. cbn [orph]. destruct oo; subst v; cbn [fix_ghost V fst]; split; cbn [cache db]; auto.
   - split; [destruct ca; reflexivity|]. cbn [fst]. split; cbn [cache db]; [|exact Id'].
     intros x Hx. destruct d as [dd|]; [|discriminate]. inversion Hx; subst.
@@ -1124,4 +1133,72 @@ Proof.
   cbn [lrun lrun_wraps]. rewrite E1, E2.
   destruct (lstep (V s o l p) g st ev) as [s1 out]. cbn [fst].
   destruct (IH s1 H2) as [I1 I2]. rewrite I1, I2. split; reflexivity.
+Qed.
+
+(* ---------- without fix_presend (/repo HEAD): identical as long as every Interim is answered - acknowledged or failed -
+   before anything else happens to the session (in particular before a restart) ---------- *)
+Fixpoint answered (evs : list sev) : bool :=
+  match evs with
+  | [] => true
+  | ETick _ false :: r =>
+      match r with
+      | ENack :: r' => answered r'
+      | EAck :: r' => answered r'
+      | _ => false
+      end
+  | _ :: r => answered r
+  end.
+
+Lemma lstep_q_other s o l p g st ev :
+  match ev with ETick _ false => False | _ => True end ->
+  lstep (Vq s o l p) g st ev = lstep (V s o l p) g st ev /\
+  lstep_wraps (Vq s o l p) g st ev = lstep_wraps (V s o l p) g st ev.
+Proof. destruct ev as [| | |sn ok| | | | |]; intros H; try (destruct ok; try contradiction); split; reflexivity. Qed.
+
+Lemma lstep_q_answered s o l p g st sn ev :
+  ev = ENack \/ ev = EAck ->
+  let a := lstep (Vq s o l p) g st (ETick sn false) in
+  let b := lstep (V s o l p) g st (ETick sn false) in
+  snd a = snd b /\
+  lstep (Vq s o l p) g (fst a) ev = lstep (V s o l p) g (fst b) ev /\
+  lstep_wraps (Vq s o l p) g st (ETick sn false) = lstep_wraps (V s o l p) g st (ETick sn false) /\
+  lstep_wraps (Vq s o l p) g (fst a) ev = lstep_wraps (V s o l p) g (fst b) ev.
+Proof.
+  intros E. cbn [lstep]. destruct (inb st); [|destruct E; subst; repeat split; reflexivity].
+  destruct (cache st) as [e|]; [|destruct E; subst; repeat split; reflexivity].
+  change (report (Vq s o l p) g true e sn) with (report (V s o l p) g true e sn).
+  destruct (report (V s o l p) g true e sn) as [e0 c].
+  destruct s; destruct E; subst; cbn; repeat split; reflexivity.
+Qed.
+
+Lemma lrun_answered s o l p g : forall n evs st, (length evs <= n)%nat ->
+  answered evs = true ->
+  lrun (Vq s o l p) g st evs = lrun (V s o l p) g st evs /\
+  lrun_wraps (Vq s o l p) g st evs = lrun_wraps (V s o l p) g st evs.
+Proof.
+  induction n as [|n IH]; intros evs st L A.
+  - destruct evs; [split; reflexivity|cbn in L; lia].
+  - destruct evs as [|ev r]; [split; reflexivity|].
+    assert (D : (exists sn, ev = ETick sn false) \/ match ev with ETick _ false => False | _ => True end).
+    { destruct ev as [| | |sn ok| | | | |]; auto. destruct ok; auto. left; eexists; reflexivity. }
+    destruct D as [[sn E]|D].
+    + subst ev. cbn [answered] in A.
+      destruct r as [|ev2 r2]; [discriminate|].
+      assert (E2 : ev2 = ENack \/ ev2 = EAck) by (destruct ev2; try discriminate; auto).
+      assert (A2 : answered r2 = true) by (destruct E2; subst; exact A).
+      destruct (lstep_q_answered s o l p g st sn ev2 E2) as (Q1 & Q2 & Q3 & Q4).
+      cbn [lrun lrun_wraps]. cbn zeta in Q1, Q2, Q3, Q4.
+      rewrite Q3.
+      destruct (lstep (Vq s o l p) g st (ETick sn false)) as [sa oa].
+      destruct (lstep (V s o l p) g st (ETick sn false)) as [sb ob]. cbn [fst snd] in *. subst oa.
+      rewrite Q4, Q2.
+      destruct (lstep (V s o l p) g sb ev2) as [s2 o2]. cbn [fst].
+      assert (L2 : (length r2 <= n)%nat) by (cbn in L; lia).
+      destruct (IH r2 s2 L2 A2) as [I1 I2]. rewrite I1, I2. split; reflexivity.
+    + assert (A2 : answered r = true) by (destruct ev as [| | |sn ok| | | | |]; try exact A; destruct ok; [exact A|contradiction]).
+      destruct (lstep_q_other s o l p g st ev D) as [E1 E2].
+      cbn [lrun lrun_wraps]. rewrite E1, E2.
+      destruct (lstep (V s o l p) g st ev) as [s1 o1]. cbn [fst].
+      assert (L2 : (length r <= n)%nat) by (cbn in L; lia).
+      destruct (IH r s1 L2 A2) as [I1 I2]. rewrite I1, I2. split; reflexivity.
 Qed.
